@@ -193,4 +193,30 @@ def APc.isDone : APc → Bool
 
 def allDone (s : St) : Bool := s.pcs.all APc.isDone
 
+/-! ### the sequential specification that every schedule refines (Properties/C19_promise.lean) -/
+
+/-- one call executed atomically on the promise (the sequential semantics of promise.go);
+    `none`: a Wait on an empty promise blocks -/
+def seqCall (f : Flags) (box : Option Res) : Call → Option (Option Res × Ret)
+  | .wait => box.map fun r => (some r, .res r)
+  | call => some (atomicCall f box call)
+
+/-- a sequential history: the events `(call index, return value)` executed one after another;
+    the result is the final content, `none` if some event is impossible at its place -/
+def seqExec (f : Flags) (calls : List Call) : Option Res → List (Nat × Ret) → Option (Option Res)
+  | b, [] => some b
+  | b, (i, ret) :: rest =>
+    match calls[i]? with
+    | some call =>
+      match seqCall f b call with
+      | some (b', ret') => if ret' = ret then seqExec f calls b' rest else none
+      | none => none
+    | none => none
+
+/-- the return value of a call that has passed its linearisation point (for a Wait: the take) -/
+def lp : APc → Option Ret
+  | .start => none
+  | .borrowed r => some (.res r)
+  | .done ret => some ret
+
 end Biogo.Promise
